@@ -255,6 +255,12 @@ struct CivilOff {
 fn test_civil(c: &CivilOff, cx: &mut Cx) -> CaseResult {
     let date = gen::mk_date(c.ymd.0, c.ymd.1, c.ymd.2);
     let dt = date.to_datetime(gen::mk_time(c.tod));
+    // the other ways of putting a date and a time together name the same civil datetime
+    {
+        let t = gen::mk_time(c.tod);
+        let alt = [jiff::civil::DateTime::from_parts(date, t), t.on(c.ymd.0, c.ymd.1, c.ymd.2), t.to_datetime(date), jiff::civil::DateTime::from(date).with().time(t).build().unwrap_or(dt), date.at(t.hour(), t.minute(), t.second(), t.subsec_nanosecond())];
+        ensure!(alt.iter().all(|x| *x == dt && dt_fields(*x) == dt_fields(dt)), "civil-constructors-differ", "{date} + {t}: {alt:?} vs {dt}");
+    }
     let o = Offset::from_seconds(c.off).unwrap();
     let civil_ns = rc::to_days(c.ymd.0 as i64, c.ymd.1 as i64, c.ymd.2 as i64) as i128 * NS_PER_DAY + c.tod as i128;
     let want = civil_ns - c.off as i128 * NS_PER_SEC;
@@ -314,6 +320,27 @@ fn test_ctor(c: &Ctor, cx: &mut Cx) -> CaseResult {
     // the const constructor (documented to panic outside the range) denotes the same instant
     if s_ok && n_ok && t_ok {
         same_ts(Timestamp::constant(c.s, c.n), total, "constant")?;
+    } else {
+        // "panics when Timestamp::new would return an error": no value may come out
+        let (cs, cn) = (c.s, c.n);
+        let got = crate::engine::guard("op", std::panic::AssertUnwindSafe(|| Timestamp::constant(cs, cn))).ok();
+        ensure!(got.is_none(), "constant-accepts-out-of-range", "Timestamp::constant({}, {}) = {got:?} although Timestamp::new refuses these arguments", c.s, c.n);
+    }
+    // ... and in the release build (no debug assertions), asked of a child process running the
+    // `rel` build of this harness: the same instant, or the documented panic
+    match crate::relbuild::ask(&[format!("T {} {}", c.s, c.n)]) {
+        Ok(v) => {
+            let ans = &v[0];
+            if s_ok && n_ok && t_ok {
+                let want = format!("OK {} {}", (total / NS_PER_SEC) as i64, (total % NS_PER_SEC) as i64);
+                ensure!(*ans == want, "constant-release-wrong", "release build: Timestamp::constant({}, {}) -> {ans:?}, want {want:?}", c.s, c.n);
+            } else {
+                ensure!(ans == "PANIC", "constant-release-accepts-out-of-range", "release build: Timestamp::constant({}, {}) -> {ans:?} although Timestamp::new refuses these arguments (documented: panics)", c.s, c.n);
+            }
+            cx.class("evaluated in both builds");
+        }
+        Err(e) if e == "no-rel-binary" => cx.class("release build unavailable"),
+        Err(e) => fail!("HARNESS-PANIC", "release-build child: {e}"),
     }
     // unit constructors: Ok exactly when the denoted instant is in range
     let checks: [(&str, i128, Result<Timestamp, jiff::Error>); 3] = [
@@ -349,6 +376,8 @@ fn test_ctor(c: &Ctor, cx: &mut Cx) -> CaseResult {
 fn strat_ctor() -> BoxedStrategy<Ctor> {
     let s = prop_oneof![
         3 => gen::biased(-377705023203, 253402207202),
+        // the first and last representable seconds themselves and their neighbours
+        2 => proptest::sample::select(vec![-377705023201i64, -377705023200, -377705023202, 253402207200, 253402207199, 253402207201, 0, 1, -1]),
         1 => gen::biased(i64::MIN, i64::MAX),
         2 => gen::biased(-377705023201i64 * 1000, 253402207200i64 * 1000 + 1000),
         1 => gen::biased(-377705023201i64 * 1_000_000 - 5, 253402207200i64 * 1_000_000 + 1_000_005),
@@ -378,6 +407,7 @@ pub fn property() -> Property {
             rec.floor("c02.random:sub-minute-offset", "c02.random:cases", 0.10);
             rec.floor("c02.civil:out-of-range", "c02.civil:cases", 0.02);
             rec.floor("c02.ctor:mixed-sign", "c02.ctor:cases", 0.10);
+            rec.floor("c02.ctor:evaluated in both builds", "c02.ctor:cases", 0.99);
         },
     }
 }
